@@ -7,8 +7,8 @@ HOOK_COMMITS = ["978c530", "5196148", "acf15cd"]
 
 # id -> (engine, technique, level text, level note, design ref)
 CHECKS = {
- "C01": ("E-INPUT", "bounded-exhaustive enumeration of games x profiles on the real evaluator vs an independent brute-force reference model",
-         "Every valid game tree of a bounded grammar (<=3 internal nodes quick / <=4 thorough, arity <=3, all infoset partitions, shared chance infosets, degenerate nodes, payoff alphabets) x every profile of a per-infoset probability grid is replayed through Game::from_root / from_named / get_info and compared with a recursive expectation and a brute-force best response over all pure strategies. Exhaustive within the stated bounds; says nothing about larger trees or values outside the alphabets.",
+ "C01": ("E-INPUT", "bounded-exhaustive enumeration of games x profiles (and of evaluate / clone / truncate operation sequences) on the real evaluator vs an independent brute-force reference model",
+         "Every valid game tree of a bounded grammar (<=3 internal nodes quick / <=4 thorough, arity <=3, all infoset partitions, shared chance infosets, degenerate nodes, payoff alphabets; plus the binary 4-internal-node universe, curated families, chance nodes with weights near f64::MAX) x every profile of a per-infoset probability grid is replayed through Game::from_root / from_named / get_info and compared with a recursive expectation and a brute-force best response over all pure strategies; operation sequences (evaluate a, evaluate b, evaluate a, clone + truncate + evaluate, truncate in place + evaluate) must be exact at every step. Exhaustive within the stated bounds; says nothing about larger trees or values outside the alphabets.",
          "Trusted: the reference evaluator in harness/src/refmodel.rs (exponential, no shared code). Small-scope hypothesis for trees beyond the bounds.", "5 C01"),
  "C08": ("E-INPUT x E-CHOICE", "exhaustive enumeration of games x parameter tuples x budgets and of all sampling-decision histories (stateless DFS over the two draw sites), real solver vs executable textbook specification under the same decisions",
          "Each (game, method, parameter tuple, budget, draw history) case runs the real solver with its random generator scripted through the sampling hook and the textbook discounted-CFR reference under the same decisions; strategies, draw sites and the distributions handed to the sampler are compared. All histories are enumerated up to 3 (chance-sampled) / 2 (external) iterations; longer budgets use hash-pinned histories (labelled as a finite selection).",
@@ -40,9 +40,9 @@ CHECKS = {
  "C17": ("E-INPUT (CLI)", "exhaustive enumeration of every single-edit corruption of every generated file at every node (fault enumeration over the input), each through four input routes, on the real binary",
          "JSON: every required field dropped / renamed / of the wrong type, probability 0 / -1, empty maps, truncation, trailing text, wrong format flag, contract violations. Gambit: 1 / 3 players, payoff just inside (must be accepted) and just outside the constant-sum tolerance, payoff too large for a double, probabilities not summing to one, unnamed-number clash, two same-named infosets of one player, differing action lists, truncation, wrong flag, contract violations. Oracle: non-zero exit, empty stdout, no output file, a fitting diagnostic category on stderr.",
          "Acceptable diagnostics are sets (auto-detection may answer with its own message). Duplicate JSON keys and unknown extra fields are not corruptions in the sense of the statement.", "5 C17"),
- "C05": ("E-INPUT x E-CHOICE", "bounded-exhaustive enumeration of games x methods x the full parameter alphabet x budgets x thresholds x thread counts, plus every sampling-decision history of the short budgets on the fallback extremes; oracle = well-formedness of what is returned, no panic / error / hang",
-         "Every (game, method, parameter tuple incl. +-inf / 0 / |1e3| exponents, presets and None, budget incl. 0, threshold incl. negative / +inf / NaN, thread count incl. 0, > nodes and the usize::MAX/3 overflow boundary) case runs the real solver inside catch_unwind under a watchdog; the returned profile is read through as_named, the dense vector and get_info. For budgets <= 3 (chance-sampled) / 2 (external) every draw history is enumerated, so the arg-max / partial_cmp paths are covered under every history.",
-         "Actually spawning usize::MAX/3 OS threads is environment behaviour and not explored. Schedules of the multi-threaded runs here are whatever the pool produces (exhaustive schedule exploration is C06/C07's loom harness).", "5 C05"),
+ "C05": ("E-INPUT x E-CHOICE x E-SCHED", "bounded-exhaustive enumeration of games x methods x the full parameter alphabet x budgets x thresholds x thread counts, every sampling-decision history of the short budgets on the fallback extremes, and (loom) every interleaving of the worker tasks of all three multi-threaded solvers on collision games; oracle = well-formedness of what is returned, no panic / error / hang / deadlock",
+         "Every (game, method, parameter tuple incl. +-inf / 0 / |1e3| exponents, presets and None, budget incl. 0, threshold incl. negative / +inf / NaN, thread count incl. 0, > nodes and the usize::MAX/3 overflow boundary) case runs the real solver inside catch_unwind under a watchdog; the returned profile is read through as_named, the dense vector and get_info. For budgets <= 3 (chance-sampled) / 2 (external) every draw history is enumerated, so the arg-max / partial_cmp paths are covered under every history. Ladders with tiny own reach x extreme exponents cover denormal normalisers. Under loom every schedule of the collision games (incl. a lock-order inversion game) is explored for panic, error and deadlock.",
+         "Actually spawning usize::MAX/3 OS threads is environment behaviour and not explored. The real-pool runs see whatever schedule the pool produces; the loom layer is exhaustive for two concurrent tasks and preemption-bounded above (same shims as C06).", "5 C05"),
  "C09": ("E-INPUT x E-CHOICE", "transition-system enumeration: prefix runs solve(t,0), t=0..N, are the states; every thresholded run solve(N,r), r below/at/above every bound value of the run, must be bitwise the state at the first hit",
          "For every game x method (sampled ones under pinned draw histories) x preset x budget N <= 8 (12 thorough) x thresholds {-1,-0,0,NaN,+inf} u {prev(b_t), b_t, next(b_t)} for every bound b_t along the run, solve(N,r) is compared bitwise with the unthresholded prefix run at t* = first t with bound < r; both the single-threaded and the multi-threaded implementation (single-task frontier) are explored.",
          "Sampled methods are explored under one hash-pinned history per game (the claim relates prefixes of one run; C08 enumerates histories).", "5 C09"),
@@ -50,7 +50,7 @@ CHECKS = {
          "(a) the private categorical sampler is called (hook) on every weight vector with denominators 8 of length <= 4 and every variate at, just below, just above every cumulative boundary and mid-interval; (b) the production alias sampler of every chance infoset is reconstructed column by column with a scripted generator and must realise the declared weights; (c) on every enumerated draw history of every game the draw log must show one draw per (infoset, pass) with exactly the declared chance weights / the opponent's current strategy, no draws for the unsampled method and no player draws for the chance-sampled one.",
          "rand's Uniform / Standard float conversion is trusted only to the extent that a scripted word reproduces the intended variate, which the log cross-checks.", "5 C10"),
  "C11": ("E-INPUT", "bounded-exhaustive enumeration of valid and invalid trees (labellings, action-list variants, single and paired local corruptions) vs a reference validator",
-         "Every raw tree shape within the bounds x every labelling over a sharing-forcing alphabet x chance labels x weights x action-list variants, plus every single (and on small shapes every pair of) local corruption, is passed to Game::from_root; Ok <=> the reference validator finds no violated rule, Err names a violated rule, never panics, accepted games survive evaluation and solving.",
+         "Every raw tree shape within the bounds x every labelling over a sharing-forcing alphabet x chance labels x weights x action-list variants, plus every single (and on small shapes every pair of) local corruption (weights 0, -1, NaN, inf, 1e308), the binary 4-internal-node unfiltered universe and named witnesses, is passed to Game::from_root; Ok <=> the reference validator finds no violated rule, Err names a violated rule, never panics, accepted games survive evaluation and solving.",
          "Trusted: refmodel::ref_validate (textbook perfect recall over experience sequences). Weight sums that overflow and non-dyadic rescalings inside a shared chance infoset are outside the alphabet.", "5 C11"),
  "C13": ("E-INPUT", "bounded-exhaustive enumeration of games x strategies plus operation-sequence exploration of both iterators (every prefix, len/size_hint vs items that follow)",
          "For every valid skeleton and every strategy source (grid profiles, truncated profiles, solver output of each method) the named view is compared with the tree's own infoset list and the dense probabilities; len()/size_hint() are queried at every prefix of the outer and of each inner iterator; round trip through both import functions.",
